@@ -270,6 +270,18 @@ def F38():
     return lb == [0, 1, 0, 258] and mapped == lb, f"targets [0, 1, 0, 258] (int8 batch then int16 batch): labels_b {lb}, map_a2b(labels_a) {mapped}"
 
 
+def F39():
+    A = np.array([[10, 200], [50, 100], [30, 150]], dtype=np.uint8)
+    B = np.array([[5, 220], [60, 90]], dtype=np.uint8)
+    m = HypersphereART(0.5, 0.01, 1.0, 2.0)
+    with quiet():
+        m.prepare_data(A)
+        P = np.asarray(m.prepare_data(B), dtype=float)
+        R = np.asarray(m.restore_data(P), dtype=float)
+    want = (B.astype(float) - [10, 100]) / [40, 100]
+    return bool(np.allclose(P, want) and np.allclose(R, B)), f"later uint8 batch {B.tolist()}: prepared {P.tolist()} (first call's map gives {want.tolist()}), restored {R.tolist()}"
+
+
 ALL = {k: v for k, v in list(globals().items()) if k[0] == "F" and k[1:3].isdigit()}
 
 if __name__ == "__main__":
